@@ -4,7 +4,8 @@
 //
 //   list                               keys (spaces removed) this harness can drive, one line
 //   entry <key> <hex> [args…]          call the entry point `key` on the bytes; extra arguments for the hand-glued ones
-//                                      -> ok | null | throw <libtins exception>       (a sanitizer abort = FAULT)
+//                                      -> ok [meta=<header size>,<type>,<next type> | str=<text> | u32=<n> | bool=<0|1>]
+//                                         | null | throw <libtins exception>          (a sanitizer abort = FAULT)
 //
 // * Rows callable with just (buffer, size) -- public constructors, static members, free functions -- are expanded from
 //   the GENERATED harness/c01_entry_gen.h: a form added to libtins tomorrow is driven without touching this file.
@@ -46,6 +47,13 @@ template <typename T> static std::string finish(T* p) {
     return "ok";
 }
 template <typename T> static std::string finish(const T&) { return "ok"; }
+// results the C01 oracle compares with the raw-pointer models of lean/TinsModel/Wire/Raw/Misc.lean
+static std::string finish(const PDU::metadata& m) {
+    return "ok meta=" + std::to_string(m.header_size) + "," + std::to_string(int(m.current_pdu_type)) + "," + std::to_string(int(m.next_pdu_type));
+}
+static std::string finish(const std::string& s) { return "ok str=" + (s.empty() ? std::string("-") : s); }
+static std::string finish(uint32_t v) { return "ok u32=" + std::to_string(v); }
+static std::string finish(bool v) { return v ? "ok bool=1" : "ok bool=0"; }
 
 // a constructed object: PDUs additionally report their size (walks the chain the constructor built)
 static void touch(const PDU& p) { (void)p.size(); }
